@@ -1,4 +1,5 @@
 import A2Verif.Model.Fs.Pascal
+import A2Verif.Model.Fs.Dos3x
 /-!
 # C12, file-system read paths: identification checks and the read-only queries the concrete models lack
 
@@ -16,6 +17,8 @@ Where the code as written can panic on a mounted image (a defect, see `design/C1
 `true` = the proposed repair.  The harness probes the real code with the witness image and passes the bit.
 -/
 namespace A2Verif.C12FsId
+
+deriving instance DecidableEq for Except
 
 /-- outcome class of a call: what the tie compares and what C12 is about -/
 inductive Cls where
@@ -187,5 +190,70 @@ def statV (fixed : Bool) (r : Raw) : R Nat :=
       | some _ => .ok free
 
 end Pascal
+
+/-! ## DOS 3.x (`/repo/src/fs/dos3x/mod.rs`) -/
+namespace Dos
+open A2Verif.Fs.Dos3x
+
+/-- outcome class of a DOS-model result -/
+def cls {α : Type} : R α → Cls
+  | .ok _ => .ok
+  | .error .panic => .panic
+  | .error _ => .err
+
+/-- `Disk::test_img` (mod.rs 73–149) on a flat image with `c` sectors per track (`DO`: 16, `D13`: 13).
+`img.track_count()` is `units / c`; on a `DO` image the 13-sector probe fails in the image layer
+(`Block::D13` → `ImageTypeMismatch`) and vice versa, so only the probe of the container's own flavour counts.
+There is no indexing and no arithmetic: the function cannot panic, hence the result type `Bool`. -/
+def testImg (c : Nat) (r : Raw) : Bool :=
+  if imgTracks c r ≠ 35 then false else
+  match imgRead c r vtocTrack 0 with
+  | .error _ => false
+  | .ok dat =>
+    -- `VTOC::from_bytes`
+    if dat.length < vtocLen then false else
+    let v := dat.take vtocLen
+    if (c = 13 ∧ v.getD 3 0 > 2) ∨ (c ≠ 13 ∧ v.getD 3 0 < 3) then false
+    else if Vtoc.vol v < 1 ∨ Vtoc.vol v > 254 then false
+    else if Vtoc.track1 v ≠ vtocTrack ∨ Vtoc.sector1 v ≠ c - 1 then false
+    else if v.getD 0x36 0 ≠ 0 ∨ v.getD 0x37 0 ≠ 1 ∨ Vtoc.sectors v ≠ c ∨ Vtoc.tracks v ≠ 35 then false
+    else true
+
+/-- the entry loop of `tree(include_meta = true)` (mod.rs 809–836) over entries `k, …` of the directory sector
+`dir`; `cur` is the sector buffer the loop keeps overwriting (T/S list, then first data sector) -/
+def treeEntries (dir : Bytes) : List Nat → Bytes → M Bytes
+  | [], cur => pure cur
+  | k :: ks, cur =>
+    if Dir.tslTrack dir k > 0 ∧ Dir.tslTrack dir k < 255 then do
+      let v ← M.getV
+      M.lift (verifyTs v (Dir.tslTrack dir k) (Dir.tslSector dir k))
+      let cur ← readSectorM cur (Dir.tslTrack dir k) (Dir.tslSector dir k)
+      M.lift (fullSector cur)
+      M.lift (verifyTs v (Tsl.pairTrack cur 0) (Tsl.pairSector cur 0))
+      let cur ← readSectorM cur (Tsl.pairTrack cur 0) (Tsl.pairSector cur 0)
+      treeEntries dir ks cur
+    else treeEntries dir ks cur
+
+/-- the directory walk of `tree` (cap `MAX_DIRECTORY_REPS`, `IOError` beyond it) -/
+def treeLoop : Nat → Nat → Nat → Bytes → M Unit
+  | 0, _, _, _ => M.fail .ioError
+  | fuel + 1, t, s, buf => do
+    let v ← M.getV
+    M.lift (verifyTs v t s)
+    let buf ← readSectorM buf t s
+    M.lift (fullSector buf)
+    let cur ← treeEntries buf (List.range 7) buf
+    if Dir.nextTrack buf = 0 ∧ Dir.nextSector buf = 0 then pure ()
+    else treeLoop fuel (Dir.nextTrack buf) (Dir.nextSector buf) cur
+
+/-- `tree(true, _)` -/
+def tree (d : Disk) : R Unit × Disk :=
+  d.run (do let v ← M.getV; treeLoop maxDirectoryReps (Vtoc.track1 v) (Vtoc.sector1 v) (zeros 256))
+
+/-- `glob(pattern, _)` for a pattern `globset` accepts: the directory walk of `catalog_to_vec`, names filtered by
+the matcher (a total parameter) -/
+def glob (d : Disk) : R (List (Bytes × Nat × Nat)) × Disk := catalog d
+
+end Dos
 
 end A2Verif.C12FsId
